@@ -54,12 +54,24 @@ def closedcount():
     return "%d/%d" % (WS.closed, WS.opened)
 
 
+def pdepth(lp):
+    """walk `loop.parent, loop.parent.parent, …` up to None: the number of enclosing loop contexts"""
+    n = 0
+    p = lp.parent
+    while p is not None:
+        n += 1
+        if n > 20:
+            raise RuntimeError("parent chain does not end in None")
+        p = p.parent
+    return n
+
+
 def gen(items):
     """an iterable without __len__"""
     return (x for x in items)
 
 
-PRELUDE = ("<%! from harness.c03_rt import boom, kboom, below, Boom, cm, closedcount, gen, probe, "
+PRELUDE = ("<%! from harness.c03_rt import boom, kboom, below, Boom, cm, closedcount, gen, probe, pdepth, "
            "flt0, flt1, flt2, flt3, flt4, flt5 %>")
 
 
